@@ -75,17 +75,18 @@ def autocorr_1d_float(data):
 
     # Missing values are replaced with the mean of the valid ones,
     #   i.e. X[X==nodata] = mean(X[X!=nodata]), so only tuples where both are
-    #   valid contribute to the covariance, with deviations from those means:
-    #   Sum((Xi - Sx/nx) * (Yi - Sy/ny)), scaled by nx*ny
-    A = nx * ny * Sxy - nx * Sy * Sx_ - ny * Sx * Sy_ + nxy * Sx * Sy
+    #   valid contribute to the covariance, with deviations from those means.
+    # Sum((Xi - X_.mean()) * (Yi - Y_.mean())) * nxy over the valid tuples ...
+    A = nxy * Sxy - Sx_ * Sy_
+    # ... corrected for the difference between the tuple means and the means
+    #   of all valid values: nxy * nx * (X_.mean() - X.mean()), same for Y
+    dX = Sx_ * nx - Sx * nxy
+    dY = Sy_ * ny - Sy * nxy
+    A = A / nxy + dX * dY / (nxy * nx * ny)
 
-    # Sum((Xi - mean)**2) over the valid values (filled values add nothing), times nx
-    var_X = nx * Sxx - Sx * Sx
-    var_Y = ny * Syy - Sy * Sy
-
-    # same scaling as A (nx*ny)
-    var_X = var_X * nx
-    var_Y = var_Y * ny
+    # Sum((Xi - X.mean())**2) over the valid values (filled values add nothing)
+    var_X = (nx * Sxx - Sx * Sx) / nx
+    var_Y = (ny * Syy - Sy * Sy) / ny
 
     if var_X < 1e-8 or var_Y < 1e-8:
         return result
@@ -161,22 +162,19 @@ def autocorr_1d_int(data, nodata):
 
     # Missing values are replaced with the mean of the valid ones,
     #   i.e. X[X==nodata] = mean(X[X!=nodata]), so only tuples where both are
-    #   valid contribute to the covariance, with deviations from those means:
-    #   Sum((Xi - Sx/nx) * (Yi - Sy/ny)), scaled by nx*ny
-    A = (
-        float64(nx) * ny * float64(Sxy)
-        - nx * float64(Sy) * float64(Sx_)
-        - ny * float64(Sx) * float64(Sy_)
-        + nxy * float64(Sx) * float64(Sy)
-    )
+    #   valid contribute to the covariance, with deviations from those means.
+    # Sum((Xi - X_.mean()) * (Yi - Y_.mean())) * nxy over the valid tuples ...
+    A = nxy * float64(Sxy) - float64(Sx_) * float64(Sy_)
+    # ... corrected for the difference between the tuple means and the means
+    #   of all valid values: nxy * nx * (X_.mean() - X.mean()), same for Y
+    #   (integer differences: exact, and independent of an offset in the data)
+    dX = float64(Sx_ * nx - Sx * nxy)
+    dY = float64(Sy_ * ny - Sy * nxy)
+    A = A / nxy + dX * dY / (float64(nxy) * nx * ny)
 
-    # Sum((Xi - mean)**2) over the valid values (filled values add nothing), times nx
-    var_X = nx * float64(Sxx) - float64(Sx) * float64(Sx)
-    var_Y = ny * float64(Syy) - float64(Sy) * float64(Sy)
-
-    # same scaling as A (nx*ny)
-    var_X = var_X * nx
-    var_Y = var_Y * ny
+    # Sum((Xi - X.mean())**2) over the valid values (filled values add nothing)
+    var_X = (nx * float64(Sxx) - float64(Sx) * float64(Sx)) / nx
+    var_Y = (ny * float64(Syy) - float64(Sy) * float64(Sy)) / ny
 
     if var_X < 1e-8 or var_Y < 1e-8:
         return result
